@@ -291,6 +291,19 @@ Section InstanceCli.
              s d name).
   Qed.
 
+  Theorem cli_text_echo_fixed_point_exact s m key name x :
+    xparse s = Some (JObj m) ->
+    forallb (fun kv => json_no_reserved pfs (sj_build (snd kv))) m = true ->
+    jlookup m key = Some x ->
+    let out := xprint (JObj [(name, jcanon x)]) in
+    cli_text_echo pfs pbody emit nameof exact_pieces rn_float_of_tok s key name = Ok out /\
+    cli_text_echo pfs pbody emit nameof exact_pieces rn_float_of_tok out name name = Ok out.
+  Proof.
+    exact (cli_text_echo_fixed_point pfs pbody emit nameof exact_pieces rn_float_of_tok okf_double
+             okf_double_print okf_double_roundtrip okf_double_finite okf_double_fot okf_double_int
+             s m key name x).
+  Qed.
+
   (* sentence one of the property through text, for values whose numbers are binary64 data *)
   Theorem cli_text_out_in_exact v name :
     json_data v = true -> value_doubles v = true -> value_no_reserved pfs v = true ->
